@@ -70,7 +70,7 @@ def main(prop, tier, only=None, engine=None):
         if harnesses:
             budget = spec.get("k_budget", {}).get(tier, {})
             jobs = budget.get("jobs", 6)
-            timeout_s = budget.get("timeout_s", 1500 if tier == "quick" else 7200)
+            timeout_s = budget.get("timeout_s", 1500 if tier == "quick" else 2400)
             mem_gb = budget.get("mem_gb", 14)
             # harnesses are run in groups so that heavy ones do not starve memory
             groups = {}
